@@ -341,17 +341,25 @@ def categorySerialize (name : Str) (cols : List (Str × List Str)) : Except Err 
     else if n == 1 then .ok (unlines (serializeSingle name (cols.map (fun kv => (kv.1, kv.2.headD [])))))
     else .ok (unlines (serializeLooped name cols n))
 
-/-- `CIFBlock.serialize()`; a failing category is a `SerializationError`. -/
+/-- one category inside `CIFBlock.serialize()`: its text and the `#` line; a failure is a `SerializationError` -/
+def catBlockText (c : Str × List (Str × List Str)) : Except Err Str :=
+  match categorySerialize c.1 c.2 with
+  | .ok t => .ok (t ++ ['#', '\n'])
+  | .error _ => .error serr
+
+/-- `CIFBlock.serialize()`. -/
 def blockSerialize (name : Str) (cats : List (Str × List (Str × List Str))) : Except Err Str := do
-  let texts ← mapM' (fun c => match categorySerialize c.1 c.2 with
-                                | .ok t => .ok (t ++ ['#', '\n'])
-                                | .error _ => .error serr) cats
+  let texts ← mapM' catBlockText cats
   .ok (sData ++ name ++ ['\n', '#', '\n'] ++ texts.flatten)
 
+/-- one block inside `CIFFile.serialize()` -/
+def blockText (b : Str × List (Str × List (Str × List Str))) : Except Err Str :=
+  match blockSerialize b.1 b.2 with
+  | .ok t => .ok t
+  | .error _ => .error serr
+
 def fileSerialize (blocks : List (Str × List (Str × List (Str × List Str)))) : Except Err Str := do
-  let texts ← mapM' (fun b => match blockSerialize b.1 b.2 with
-                                | .ok t => .ok t
-                                | .error _ => .error serr) blocks
+  let texts ← mapM' blockText blocks
   .ok texts.flatten
 
 /-! ## Reader: blocks and files (lazy: only the text of each element is cut out) -/
@@ -404,5 +412,22 @@ def fileScan (segs : List (Str × List Str)) : List Str → List (Str × List St
 /-- `CIFFile.deserialize(text)` → block name ↦ text. -/
 def fileDeserialize (text : Str) : List (Str × Str) :=
   toDict (closeSegs (fileScan [] (splitLines text)))
+
+/-! ## Parsing all the way down (what `file[b][c]` returns after the lazy steps) -/
+
+abbrev Cols := List (Str × List Str)
+
+/-- `CIFBlock.deserialize` followed by `CIFCategory.deserialize` of every category text. -/
+def blockParse (text : Str) : Except Err (List (Option Str × (Str × Cols))) := do
+  let cats ← blockDeserialize text
+  mapM' (fun c => match categoryDeserialize c.2 with
+    | .ok r => .ok (c.1, r)
+    | .error e => .error e) cats
+
+/-- `CIFFile.deserialize` followed by `blockParse` of every block text. -/
+def fileParse (text : Str) : Except Err (List (Str × List (Option Str × (Str × Cols)))) :=
+  mapM' (fun b => match blockParse b.2 with
+    | .ok r => .ok (b.1, r)
+    | .error e => .error e) (fileDeserialize text)
 
 end BiotiteModel.C06
